@@ -996,3 +996,123 @@ Print Assumptions C08_gen_Sbv_display_order.
 
 End GenAgreeCollator_C08.
 (*END GenAgreeCollator_C08*)
+
+(*BEGIN GenAgreeDimension_C08*)
+(* ------------------------------------------------------------------------------------ *)
+(* SOURCE TEXT of _OrderSpec (harness/translate/x_dimension.py -> Gen/DimensionSrc.v, see the appendix of
+   Props/C04.v): for ALL dimension-transforms dicts every member reads the "order" dict the way the models assume -
+   direction != "ascending", element_ids / fixed.top / fixed.bottom as sequences ([] when absent), element_id /
+   insertion_id / measure / marginal with KeyError when the field is absent, MEASURE(..) / MARGINAL(..) = the
+   keyword when it is in [SortKeys.measure_enum] / [SortKeys.marginal_enum] (read from enums.py) and ValueError
+   otherwise, the collation method = the "type" keyword when it is a COLLATION_METHOD value and payload order
+   otherwise ([order_of], [seq_field], [fixed_field], [enum_of], [collation_of]: Proofs/GenAgreeDimensionOrderSpec.v). *)
+From CC Require Proofs.GenAgreeDimensionOrderSpec Model.SortKeys.
+Section GenAgreeDimension_C08.   (* scopes and imports below end with the section *)
+Import Coq.Lists.List Coq.ZArith.ZArith Coq.Strings.String Coq.Bool.Bool CC.Base.XQ CC.Base.Ident CC.Base.PyList
+       CC.Base.PyDict CC.Model.DimType CC.Model.PyDimension CC.Gen.DimensionSrc CC.Proofs.GenAgreeDimensionLib
+       CC.Proofs.GenAgreeDimensionSubtotal CC.Proofs.GenAgreeDimensionOrderSpec.
+Import Coq.Lists.List.ListNotations.
+Local Close Scope Q_scope.
+Local Open Scope Z_scope.
+
+Theorem C08_gen_dim__OrderSpec__order_dict :
+  match src__OrderSpec__order_dict with
+  | Some f => forall D tr o, order_of tr = Some o -> f (mkPyOrderSpec D (JDict tr)) = Ok (JDict o)
+  | None => True end.
+Proof. exact gen__OrderSpec__order_dict. Qed.
+Print Assumptions C08_gen_dim__OrderSpec__order_dict.
+
+Theorem C08_gen_dim__OrderSpec_descending :
+  match src__OrderSpec_descending with
+  | Some f => forall D tr o, order_of tr = Some o ->
+      f (mkPyOrderSpec D (JDict tr))
+      = Ok (negb (jv_eqb (jd_get_default o (JStr "direction") (JStr "descending")) (JStr "ascending")))
+  | None => True end.
+Proof. exact gen__OrderSpec_descending. Qed.
+Print Assumptions C08_gen_dim__OrderSpec_descending.
+
+Theorem C08_gen_dim__OrderSpec_element_ids :
+  match src__OrderSpec_element_ids with
+  | Some f => forall D tr o l, order_of tr = Some o -> seq_field o "element_ids" l ->
+      f (mkPyOrderSpec D (JDict tr)) = Ok l
+  | None => True end.
+Proof. exact gen__OrderSpec_element_ids. Qed.
+Print Assumptions C08_gen_dim__OrderSpec_element_ids.
+
+Theorem C08_gen_dim__OrderSpec_top_fixed_ids :
+  match src__OrderSpec_top_fixed_ids with
+  | Some f => forall D tr o l, order_of tr = Some o -> fixed_field o "top" l ->
+      f (mkPyOrderSpec D (JDict tr)) = Ok l
+  | None => True end.
+Proof. exact gen__OrderSpec_top_fixed_ids. Qed.
+Print Assumptions C08_gen_dim__OrderSpec_top_fixed_ids.
+
+Theorem C08_gen_dim__OrderSpec_bottom_fixed_ids :
+  match src__OrderSpec_bottom_fixed_ids with
+  | Some f => forall D tr o l, order_of tr = Some o -> fixed_field o "bottom" l ->
+      f (mkPyOrderSpec D (JDict tr)) = Ok l
+  | None => True end.
+Proof. exact gen__OrderSpec_bottom_fixed_ids. Qed.
+Print Assumptions C08_gen_dim__OrderSpec_bottom_fixed_ids.
+
+Theorem C08_gen_dim__OrderSpec_element_id :
+  match src__OrderSpec_element_id with
+  | Some f => forall D tr o, order_of tr = Some o ->
+      f (mkPyOrderSpec D (JDict tr)) = of_option KeyError (jd_get o (JStr "element_id"))
+  | None => True end.
+Proof. exact gen__OrderSpec_element_id. Qed.
+Print Assumptions C08_gen_dim__OrderSpec_element_id.
+
+Theorem C08_gen_dim__OrderSpec_insertion_id :
+  match src__OrderSpec_insertion_id with
+  | Some f => forall D tr o, order_of tr = Some o ->
+      f (mkPyOrderSpec D (JDict tr)) = of_option KeyError (jd_get o (JStr "insertion_id"))
+  | None => True end.
+Proof. exact gen__OrderSpec_insertion_id. Qed.
+Print Assumptions C08_gen_dim__OrderSpec_insertion_id.
+
+Theorem C08_gen_dim__OrderSpec_measure_keyname :
+  match src__OrderSpec_measure_keyname with
+  | Some f => forall D tr o, order_of tr = Some o ->
+      f (mkPyOrderSpec D (JDict tr)) = of_option KeyError (jd_get o (JStr "measure"))
+  | None => True end.
+Proof. exact gen__OrderSpec_measure_keyname. Qed.
+Print Assumptions C08_gen_dim__OrderSpec_measure_keyname.
+
+Theorem C08_gen_dim__OrderSpec_marginal_keyname :
+  match src__OrderSpec_marginal_keyname with
+  | Some f => forall D tr o, order_of tr = Some o ->
+      f (mkPyOrderSpec D (JDict tr)) = of_option KeyError (jd_get o (JStr "marginal"))
+  | None => True end.
+Proof. exact gen__OrderSpec_marginal_keyname. Qed.
+Print Assumptions C08_gen_dim__OrderSpec_marginal_keyname.
+
+Theorem C08_gen_dim__OrderSpec_measure :
+  match src__OrderSpec_measure with
+  | Some f => forall D tr o, order_of tr = Some o ->
+      f (mkPyOrderSpec D (JDict tr))
+      = bind (of_option KeyError (jd_get o (JStr "measure"))) (enum_of SortKeys.measure_enum)
+  | None => True end.
+Proof. exact gen__OrderSpec_measure. Qed.
+Print Assumptions C08_gen_dim__OrderSpec_measure.
+
+Theorem C08_gen_dim__OrderSpec_marginal :
+  match src__OrderSpec_marginal with
+  | Some f => forall D tr o, order_of tr = Some o ->
+      f (mkPyOrderSpec D (JDict tr))
+      = bind (of_option KeyError (jd_get o (JStr "marginal"))) (enum_of SortKeys.marginal_enum)
+  | None => True end.
+Proof. exact gen__OrderSpec_marginal. Qed.
+Print Assumptions C08_gen_dim__OrderSpec_marginal.
+
+Theorem C08_gen_dim__OrderSpec_collation_method :
+  match src__OrderSpec_collation_method with
+  | Some f => forall D tr o, order_of tr = Some o ->
+      jv_hashable (jd_get_default o (JStr "type") JNone) = true ->
+      f (mkPyOrderSpec D (JDict tr)) = Ok (collation_of (jd_get_default o (JStr "type") JNone))
+  | None => True end.
+Proof. exact gen__OrderSpec_collation_method. Qed.
+Print Assumptions C08_gen_dim__OrderSpec_collation_method.
+
+End GenAgreeDimension_C08.
+(*END GenAgreeDimension_C08*)
